@@ -35,17 +35,6 @@ CMPS = ["==", "!=", "<", "<=", ">", ">="]
 FIXED_VALUES = [0.0, 1.0, -1.0, 1000.0, 0.001, 0.1, 3.7, 7]          # 7 is an int
 
 
-def slug(s: str) -> str:
-    """signature-safe spelling of a unit name (signatures become file names)"""
-    import re
-    return re.sub(r"[^A-Za-z0-9_.:+-]", lambda m: "_" if m.group(0) in "/ " else "x%02X" % (ord(m.group(0)) & 0xFFFF), s)
-
-
-class SafeRun(C.Run):
-    def violation(self, signature, what, replay, found_input=True):
-        return super().violation(slug(signature), what, replay, found_input)
-
-
 def num(v) -> dict:
     d = {"t": "num", "v": UU.fhex(v)}
     if type(v) is int:
@@ -74,7 +63,7 @@ def gen_cases(ctx, rng: random.Random, tier: str):
         spec["group"] = group
         specs.append(spec)
 
-    n_rand = 1 if tier == "quick" else 6
+    n_rand = 1 if tier == "quick" else 12
     for cls in ctx.names:
         units = ctx.units_of(cls)
         for ui, unit in enumerate(units):
@@ -333,7 +322,7 @@ def table_violations(run, ctx, coq_off, py_off):
                               {"table_entry": o, "theorem": "C17_aliases_share_factor", "coq_offenders": co})
         else:
             for o in po[:6]:
-                run.violation(f"table-{check}-violated:{o.get('cls', '')}:{o.get('unit', '')}",
+                run.violation(f"table-{check}-violated:{o.get('cls', '')}:{str(o.get('unit', '')).strip(chr(39))}",
                               f"table check {check} fails on the live module: {o}",
                               {"table_entry": o, "coq_offenders": co,
                                "theorem": {"described": "C17_every_unit_described", "base_factor": "C17_base_unit_has_factor_one",
@@ -379,7 +368,7 @@ def dump_readback(ctx):
 
 # ------------------------------------------------------------------ main
 def main(tier: str) -> int:
-    run = SafeRun(PID, tier)
+    run = UU.SafeRun(PID, tier)
     try:
         dump = UU.regen()
         U = UU.load_units()
@@ -387,6 +376,9 @@ def main(tier: str) -> int:
         run.violation("harness-cannot-load-units", f"translator / import failed: {type(exc).__name__}: {exc}", {}, found_input=False)
         return run.finish()
     ctx = UU.Ctx(U, dump)
+    import time as _t
+    phase = {"translate": round(_t.time() - run.t0, 1)}
+    _t0 = _t.time()
     proofs_ok = run.check_proofs(TARGETS, extra_tb=[
         "reflective translator translator/dump_units.py (tables and candidate compound readings regenerated from the imported "
         "module on every run; every dumped entry read back against getattr on the live classes; every compound reading is "
@@ -397,6 +389,9 @@ def main(tier: str) -> int:
         "str(float) is not modelled: the check compares str(q) with str(q.displayvalue) + ' ' + display unit on the Python side",
     ])
     run.cov["translator"] = dump["_log"]
+    phase["build_and_recheck_props"] = round(_t.time() - _t0, 1)
+    _t0 = _t.time()
+    run.cov["phase_s"] = phase
 
     # ---- table checks
     coq_off, counts, err = UU.coq_table_offenders(PID, UU.C17_CHECKS)
@@ -427,6 +422,8 @@ def main(tier: str) -> int:
                                 "compound_readings": sum(len(c["readings"]) for c in comp)}
     table_defect_classes = {o["cls"] for o in py_off.get("display", [])}
 
+    phase["table_checks"] = round(_t.time() - _t0, 1)
+    _t0 = _t.time()
     # ---- cases
     rng = random.Random(run.seed * 7927 + 17)
     specs = []
@@ -490,16 +487,27 @@ def main(tier: str) -> int:
             smp["observed"]["nums"] = smp["observed"]["nums"][:6] + ["..."]
         run.add_sample(smp)
 
+    families = {}
+    for sig in fails:
+        families.setdefault(sig.split(":", 1)[0], []).append(sig)
     for sig, (cs, bad) in fails.items():
+        fam = families[sig.split(":", 1)[0]]
+        if fam.index(sig) >= 3:          # a systematic failure: three concrete inputs per kind are enough
+            continue
+        if len(fam) > 3 and fam.index(sig) == 0:
+            bad = (bad[0], bad[1] + f" [{len(fam)} (class, unit) combinations fail this way]")
         run.violation(sig, bad[1], {"call": cs["spec"], "operands": cs["ops"], "observed": cs["out"],
                                     "how": "build the operand(s) with pydsol.core.units cls(value, unit) and apply the call"})
 
+    phase["run_implementation_and_oracle"] = round(_t.time() - _t0, 1)
+    _t0 = _t.time()
     # ---- model vs implementation inside coqc
     mism, err = UU.run_correspondence(run, ctx, cases)
     if err:
         run.violation("correspondence-not-evaluable", "coqc could not evaluate the C17 correspondence (Units.Dispatch.eval): " + err,
                       {}, found_input=False)
         return run.finish()
+    phase["coqc_correspondence"] = round(_t.time() - _t0, 1)
     run.cov["traces_validated_against_impl"] = len(cases) - len(mism)
     run.cov["model_impl_mismatches"] = len(mism)
 
@@ -527,8 +535,24 @@ def replay(path: str) -> int:
     dump = UU.regen()
     ctx = UU.Ctx(UU.load_units(), dump)
     if "call" not in body:
-        print(f"replay {path}: table finding ({body.get('what', '')[:200]}); re-run: {body.get('rerun')}")
-        return 2
+        # a table finding: evaluate the table clauses on the live module again
+        class Probe:
+            def __init__(self):
+                self.sigs = {}
+
+            def violation(self, signature, what, replay, found_input=True):
+                self.sigs[UU.slug(signature)] = what
+        probe = Probe()
+        py_off = UU.python_table_offenders(ctx)
+        py_off["compound"] = compound_offenders(ctx)
+        table_violations(probe, ctx, {}, py_off)
+        hit = body.get("signature") in probe.sigs
+        print(json.dumps({"signature": body.get("signature"), "still_violated": hit,
+                          "what": probe.sigs.get(body.get("signature"))}, indent=1))
+        if hit:
+            print(f"VIOLATION property={PID} replay={path}")
+            return 1
+        return 0
     out, ops, raw = UU.run_call(ctx, body["call"])
     bad = oracle(ctx, body["call"], out, ops, raw)
     print(json.dumps({"call": body["call"], "observed": out, "violated": bad[0] if bad else None}, indent=1))
